@@ -52,18 +52,27 @@ pub(crate) mod kani_access {
     #[cfg(httparse_simd)] pub unsafe fn hval32(b: &[u8]) -> usize { super::avx2::kani_hval32(b) }
     #[cfg(httparse_simd)] pub fn get_runtime_feature() -> u8 { super::runtime::kani_get_runtime_feature() }
     #[cfg(httparse_simd)] pub fn runtime_feature_cell() -> &'static std::sync::atomic::AtomicU8 { super::runtime::kani_runtime_feature_cell() }
-    pub unsafe fn neon_name16(p: *const u8) -> usize { super::neon_kani::kani_name16(p) }
-    pub unsafe fn neon_uri16(p: *const u8) -> usize { super::neon_kani::kani_uri16(p) }
-    pub unsafe fn neon_hval16(p: *const u8) -> usize { super::neon_kani::kani_hval16(p) }
-}
-#[cfg(kani)] #[allow(dead_code, unused_imports)] pub(crate) mod neon_emu;
-#[cfg(kani)] #[allow(dead_code, unused_imports)] #[path = "neon_kani.rs"] pub(crate) mod neon_kani;
-''',
+@NEON_ACCESS@}
+@NEON_MODS@''',
     'src/lib.rs': '''
 #[cfg(kani)] mod kani_harnesses;
 #[cfg(kani)] mod kani_gen;
 ''',
 }
+
+
+NEON_ACCESS_LINES = '''    pub unsafe fn neon_name16(p: *const u8) -> usize { super::neon_kani::kani_name16(p) }
+    pub unsafe fn neon_uri16(p: *const u8) -> usize { super::neon_kani::kani_uri16(p) }
+    pub unsafe fn neon_hval16(p: *const u8) -> usize { super::neon_kani::kani_hval16(p) }
+'''
+NEON_MOD_LINES = '''#[cfg(kani)] #[allow(dead_code, unused_imports)] pub(crate) mod neon_emu;
+#[cfg(kani)] #[allow(dead_code, unused_imports)] #[path = "neon_kani.rs"] pub(crate) mod neon_kani;
+'''
+
+
+def append_text(rel, skip_neon=False):
+    t = APPEND[rel]
+    return t.replace('@NEON_ACCESS@', '' if skip_neon else NEON_ACCESS_LINES).replace('@NEON_MODS@', '' if skip_neon else NEON_MOD_LINES)
 
 
 def gen_module(repo):
@@ -159,7 +168,7 @@ def diff_guard(repo, scratch):
             if not b.startswith(a):
                 raise RuntimeError('diff guard: %s is not an append-only copy' % rel)
             extra = b[len(a):].decode()
-            if extra.strip() and extra.strip() != APPEND.get(rel, '').strip():
+            if extra.strip() and extra.strip() not in (append_text(rel).strip() if rel in APPEND else '', append_text(rel, True).strip() if rel in APPEND else ''):
                 raise RuntimeError('diff guard: unexpected appended text in ' + rel)
 
 
@@ -199,15 +208,17 @@ def list_harnesses():
     return hs + ['leaf_guard_shrinks_exactly', 'leaf_const_values']
 
 
-def run(harnesses=None, jobs=8, timeout=1500, keep=False, extra_args=()):
+def run(harnesses=None, jobs=8, timeout=1500, keep=False, extra_args=(), skip_neon=False):
+    """skip_neon: the tree's neon.rs does not build against the emulation (it uses an intrinsic the emulation does not model):
+    the NEON module and its three leaves are left out, reported as undecided, and every other leaf still runs"""
     t0 = time.time()
     scratch = tempfile.mkdtemp(prefix='httparse-kani-')
     res = dict(harnesses={}, error=None, wall_s=0, cmd='')
     try:
         subprocess.check_call(['rsync', '-a', '--exclude', 'target', '--exclude', '.git', '--exclude', 'fuzz', REPO + '/', scratch + '/'])
-        for rel, text in APPEND.items():
+        for rel in APPEND:
             with open(os.path.join(scratch, rel), 'a') as f:
-                f.write(text)
+                f.write(append_text(rel, skip_neon))
         ht = open(os.path.join(VERIF, 'kani/harnesses.rs')).read()
         # VERIF_KANI_BOUNDS="RPOS_N=24,UTF8_N=6": larger bounds for the two BOUNDED std stand-ins (thorough tier)
         for kv in [x for x in os.environ.get('VERIF_KANI_BOUNDS', '').split(',') if '=' in x]:
@@ -216,10 +227,14 @@ def run(harnesses=None, jobs=8, timeout=1500, keep=False, extra_args=()):
                              'const %s: usize = %d;\n#[kani::proof]\n#[kani::unwind(%d)]' % (nm, int(val), int(val) + 2), ht)
             if n1 != 1:
                 raise RuntimeError('bound marker %s not found in kani/harnesses.rs' % nm)
+        if skip_neon:
+            a_, b_ = ht.index('// ---------------------------------------------------------------------------------------------- NEON block leaves'), ht.index('// ---------------------------------------------------------------------------------------------- the cursor (src/iter.rs)')
+            ht = ht[:a_] + ht[b_:]
         open(os.path.join(scratch, 'src/kani_harnesses.rs'), 'w').write(ht)
         open(os.path.join(scratch, 'src/kani_gen.rs'), 'w').write(gen_module(REPO))
-        open(os.path.join(scratch, 'src/simd/neon_kani.rs'), 'w').write(neon_module(REPO))
-        shutil.copy(os.path.join(VERIF, 'kani/neon_emu.rs'), os.path.join(scratch, 'src/simd/neon_emu.rs'))
+        if not skip_neon:
+            open(os.path.join(scratch, 'src/simd/neon_kani.rs'), 'w').write(neon_module(REPO))
+            shutil.copy(os.path.join(VERIF, 'kani/neon_emu.rs'), os.path.join(scratch, 'src/simd/neon_emu.rs'))
         # scratch-only: let `cfg(kani)` pass the crate's own `deny(warnings)` when the playback test is compiled natively
         ct = os.path.join(scratch, 'Cargo.toml')
         t = open(ct).read()
@@ -227,6 +242,9 @@ def run(harnesses=None, jobs=8, timeout=1500, keep=False, extra_args=()):
             open(ct, 'w').write(t.replace("'cfg(httparse_simd)',", "'cfg(httparse_simd)',\n    'cfg(kani)',", 1))
         diff_guard(REPO, scratch)
         hs = harnesses or list_harnesses()
+        neon_hs = [h for h in hs if h.startswith('leaf_neon_')]
+        if skip_neon:
+            hs = [h for h in hs if h not in neon_hs]
         cmd = ['cargo', 'kani', '-Z', 'stubbing', '-j', str(jobs), '--output-format', 'terse']
         for h in hs:
             cmd += ['--harness', h]
@@ -271,6 +289,16 @@ def run(harnesses=None, jobs=8, timeout=1500, keep=False, extra_args=()):
         else:
             shutil.rmtree(scratch, ignore_errors=True)
     res['wall_s'] = round(time.time() - t0, 1)
+    if (not skip_neon and res.get('error') and 'no harness output' in str(res['error']) and re.search(r'neon_kani\.rs|neon_emu', res.get('raw_tail', ''))
+            and (harnesses is None or any(not h.startswith('leaf_neon_') for h in harnesses))):
+        r2 = run(harnesses, jobs, timeout, keep, extra_args, skip_neon=True)
+        for h in (harnesses or list_harnesses()):
+            if h.startswith('leaf_neon_'):
+                r2['harnesses'][h] = dict(status='missing', detail='src/simd/neon.rs of this tree does not build against the emulation of core::arch::aarch64 (kani/neon_emu.rs): '
+                                          + '; '.join(re.findall(r'error[^\n]*', res.get('raw_tail', ''))[:3])[:400])
+        r2['neon_skipped'] = True
+        r2['wall_s'] = round(time.time() - t0, 1)
+        return r2
     return res
 
 
